@@ -223,8 +223,7 @@ class ModuleResult:
         self.witnessed = set()      # subset with an observed Verilog/FHDL divergence
         self.mism_cycles = 0
         self.fit_cycles = 0
-        self.uninit = []
-        self.lowering_known = False
+        self.kept_full_slices = 0   # slices covering exactly a node that can be negative (must survive the lowering)
 
 
 def stimulus(rng, inputs, rsts, prev, t):
@@ -308,9 +307,9 @@ def run_module_case(lean, rng, name, build, cycles, dis, with_orig=True, fuel=64
             nl.tick(tuple(cdsA))
         rl.tick(clks)
         cyc.append("%d %s %s" % (len(clks), " ".join(str(ids.get(c)) for c in clks), " ".join(map(str, vals))))
-    if orig_vs_low is not None and signed_full_slices(fA0):
-        res.lowering_known = True
-    elif orig_vs_low is not None:
+    # coverage of the repaired region of C01-signed-full-slice-dropped / C01-full-slice-dropped-negative-operand
+    res.kept_full_slices = len(signed_full_slices(fA0)) if fA0 is not None else 0
+    if orig_vs_low is not None:
         dis.append(Dis("lowering", module=name, what="real Evaluator on the original design differs from the real "
                        "Evaluator on the lowered fragment that was printed", **orig_vs_low))
     line = "sim %d ; %s ; %s ; %s ; %s ; %s ; %s ; %s ; %s ; %s" % (
@@ -365,13 +364,6 @@ def run_module_case(lean, rng, name, build, cycles, dis, with_orig=True, fuel=64
             res.mism_cycles += 1
             s = sigs[mism - 1]
             sname = cap.ns.get_name(s)
-            d = mt.decls.get(sname)
-            if t == 0 and d is not None and d["kind"] == "or" and s.reset.value != 0:
-                # `output reg` ports carry no initialiser in the text: power-up value differs from Signal.reset
-                res.uninit.append(sname)
-                if fits and prev_fits:
-                    prev_fits, prev_nonfit = fits, nonfit
-                    continue
             if fits and prev_fits:
                 dis.append(Dis("theorem-contradicted", module=name, cycle=t, signal=sname,
                                what="all side conditions hold but stepV (real text) and stepF differ"))
@@ -388,10 +380,10 @@ def snapshot_stmts(f):
 
 
 def signed_full_slices(stmt_lists):
-    """KNOWN REGION (finding C01-full-slice-dropped): does the original design contain a slice that
-    `_ComplexSliceLowerer` resolves to a node it covers exactly and whose unbounded value can be negative
-    (signed signal/constant, `~x`, `a - b`, `-x`)?  The lowerer drops such slices although a Migen slice is an
-    unsigned, zero-extending view."""
+    """Slices of the original design that `_ComplexSliceLowerer` resolves to a node they cover exactly and whose
+    unbounded value can be negative (signed signal/constant, `~x`, `a - b`, `-x`).  Such a slice must NOT be
+    dropped (a Migen slice is an unsigned, zero-extending view); before the fix of C01-signed-full-slice-dropped /
+    C01-full-slice-dropped-negative-operand the lowerer dropped it.  Used as a coverage counter for tie (iv)."""
     from migen.fhdl.structure import _Slice, _Operator, _Assign, If, Case, Cat, Replicate
     from migen.fhdl.bitcontainer import value_bits_sign
     found = []
@@ -479,7 +471,7 @@ def random_module_build(seed, maxw, tame=False):
 def l2_random(ctx, n_mod, cycles, dis):
     rng = ctx.rng
     tot = dict(modules=0, unsupported=0, cycles=0, fit_cycles=0, mism_cycles=0, sites=0, static_nonfit=0,
-               witnessed=0, uninit_output_reg=0, lowering_known_region=0)
+               witnessed=0, kept_full_slices=0)
     for k in range(n_mod):
         seed = rng.randrange(1 << 30)
         tame = k % 3 != 0
@@ -494,8 +486,7 @@ def l2_random(ctx, n_mod, cycles, dis):
         tot["sites"] += r.nsites
         tot["static_nonfit"] += len(r.static_sites)
         tot["witnessed"] += len(r.witnessed)
-        tot["uninit_output_reg"] += len(r.uninit)
-        tot["lowering_known_region"] += 1 if r.lowering_known else 0
+        tot["kept_full_slices"] += r.kept_full_slices
         if len(dis) > 10:
             break
     ctx.cov.add_cases("L2 random modules (%d, %d cycles each, all signals compared)" % (n_mod, cycles),
@@ -686,8 +677,6 @@ def l2_cores(ctx, cycles, dis):
             elif e["witness"]:
                 ctx.cov.count("site_witnessed")
                 ctx.cov.notes.append("overflow site with reachable witness: %s | %s" % (name, key))
-        if r.uninit:
-            ctx.cov.notes.append("core %s: output reg without initialiser and non-zero reset: %s" % (name, r.uninit))
         ctx.cov.instances.append({"instance": name, "mode": "B", "cycles": r.cycles, "signals": r.nsigs,
                                   "sites": r.nsites, "static_nonfit": len(r.static_sites),
                                   "witnessed": len(r.witnessed), "exhaustive": False,
